@@ -7,6 +7,7 @@ From Coq Require Import List NArith Bool.
 From Coq.Strings Require Import Byte.
 Import ListNotations.
 From OV Require Import Model.Value Model.XPathFrag Model.Decl Model.Eval Proofs.PipelineC02.
+From OV Require Model.Json Proofs.Json Proofs.PipelineCanonJson Proofs.PipelineCanonXml.
 From OV Require Import Base.Bytes Base.Tree Model.Pipeline Proofs.Pipeline Proofs.PipelineInst Proofs.PipelineCanon.
 
 Section C15.
@@ -23,13 +24,16 @@ Section C15.
      expr_cache_pure / js_isolation / node_json_fresh, C20) - to be instantiated by the integrator *)
   Hypothesis CInv_mono : forall used used' c,
     (forall x, In x used -> In x used') -> CInv used c -> CInv used' c.
-  Hypothesis eval_cache_transparent : forall c s w,
-    fst (eval true c s w) = fst (eval false c s w).
+  Hypothesis eval_cache_transparent : forall s w,
+    content_stable_per_id s -> NoDup (w_ids w) ->
+    fst (eval true c0 s w) = fst (eval false c0 s w).
   Hypothesis eval_id_renaming : forall (f : N -> N) m s w,
+    content_stable_per_id s -> NoDup (w_ids w) ->
     (forall x y, In x (w_ids w) -> In y (w_ids w) -> f x = f y -> x = y) ->
     fst (eval m c0 s (w_rename f w)) = fst (eval m c0 s w).
   Hypothesis eval_caches_sound : forall used c m s w,
     CInv used c -> (forall i, In i (w_rec_ids w) -> ~ In i used) -> content_stable_per_id s ->
+    NoDup (w_ids w) ->
     fst (eval m c s w) = fst (eval m c0 s w) /\ CInv (w_rec_ids w ++ used) (snd (eval m c s w)).
   Notation run_env := (run_env schema V C eval marshal marshal_err_cont H canon).
   Notation Inv := (Inv C CInv).
@@ -131,6 +135,59 @@ Example c15_flat_canon_value :
   j2 (flat_rec ElementNode [] (combine [[x61]; [x62]] [[x31]; [x32]])) = JObj [([x61], JStr [x31]); ([x62], JStr [x32])].
 Proof. vm_compute. reflexivity. Qed.
 
+(* JSON: for every node the JSON stream reader builds (Model/Json.v jnode: document node, property
+   node, array element - what C08's json_tree_built shows the reader to build) for values with
+   pairwise distinct keys whose numbers survive strconv: equal canon => equal value. *)
+Section C15Json.
+  Variable fmtf : N -> bytes.     (* strconv.FormatFloat(v, 'f', -1, 64) *)
+  Variable parsef : bytes -> N.   (* strconv.ParseFloat *)
+  Notation float_rt := (PipelineCanonJson.float_rt fmtf parsef).
+
+  Theorem canon_injective_json : forall v v' ty d base ty' d' base',
+    Json.jwf v = true -> Json.jwf v' = true -> Json.jnums float_rt v -> Json.jnums float_rt v' ->
+    Proofs.Json.base_ok base -> Proofs.Json.base_ok base' ->
+    j2 (Json.jnode fmtf ty d base v) = j2 (Json.jnode fmtf ty' d' base' v') -> v = v'.
+  Proof. exact (PipelineCanonJson.canon_injective_json fmtf parsef). Qed.
+
+  Theorem canon_injective_json_built : forall v v' t t',
+    Json.jwf v = true -> Json.jwf v' = true -> Json.jnums float_rt v -> Json.jnums float_rt v' ->
+    Json.jbuild fmtf (Json.jtokens v) = Some t -> Json.jbuild fmtf (Json.jtokens v') = Some t' ->
+    j2 t = j2 t' -> v = v'.
+  Proof. exact (PipelineCanonJson.canon_injective_json_built fmtf parsef). Qed.
+End C15Json.
+
+(* XML under the F12 guard (PipelineCanonXml.xguard: text-only elements carry no attributes;
+   elements with element children carry no text, have pairwise distinct non-empty child names -
+   or are arrays: >= 2 children of one name and no attributes): two guarded records of the same
+   shape (names, namespaces, nesting) with equal canon are equal - every text and every attribute
+   value is determined by the canon. *)
+Theorem canon_injective_xml : forall e e',
+  PipelineCanonXml.xguard e -> PipelineCanonXml.xguard e' ->
+  PipelineCanonXml.xshape e = PipelineCanonXml.xshape e' ->
+  j2 (PipelineCanonXml.xtree e) = j2 (PipelineCanonXml.xtree e') -> e = e'.
+Proof. exact PipelineCanonXml.canon_injective_xml. Qed.
+
+(* a guarded record with attributes, a nested object and an array *)
+Example c15_xml_guard_nonvacuous :
+  let x := FXml [] [] in
+  let e := PipelineCanonXml.XObj [x6e] x [([x6b], x, [x31])]
+             [PipelineCanonXml.XLeaf [x61] x [x41];
+              PipelineCanonXml.XArr [x6c] x [PipelineCanonXml.XLeaf [x65] x [x31]; PipelineCanonXml.XLeaf [x65] x [x32]]] in
+  PipelineCanonXml.xguard e /\
+  j2 (PipelineCanonXml.xtree e) =
+    JObj [([x61], JStr [x41]); ([x6c], JArr [JStr [x31]; JStr [x32]]);
+          (attributes_key, JObj [([x6b], JStr [x31])])].
+Proof.
+  split; [|vm_compute; reflexivity].
+  simpl. repeat split; auto.
+  - repeat constructor. simpl. tauto.
+  - repeat constructor.
+  - vm_compute. repeat constructor; simpl; intuition discriminate.
+  - vm_compute. intros [H|[H|[]]]; discriminate.
+  - vm_compute. intros [H|[H|[]]]; discriminate.
+  - exists [x65]. repeat constructor.
+Qed.
+
 (* XML: different ingested values, equal canon (F12, both halves) *)
 Theorem xml_checksum_refuted :
   (f12_a <> f12_b /\ j2 f12_a = j2 f12_b) /\ (f12_c <> f12_d /\ j2 f12_c = j2 f12_d).
@@ -142,17 +199,18 @@ Proof. exact (conj xml_checksum_refuted_attr xml_checksum_refuted_mixed). Qed.
    pooling and JS caches off) satisfy Inv. *)
 Example c15_hypotheses_satisfiable :
   (forall used used' c, (forall x, In x used -> In x used') -> tCInv used c -> tCInv used' c) /\
-  (forall c s w, fst (teval true c s w) = fst (teval false c s w)) /\
-  (forall (f : N -> N) m s w,
+  (forall s w, tguard s -> NoDup (w_ids w) -> fst (teval true tc0 s w) = fst (teval false tc0 s w)) /\
+  (forall (f : N -> N) m s w, tguard s -> NoDup (w_ids w) ->
      (forall x y, In x (w_ids w) -> In y (w_ids w) -> f x = f y -> x = y) ->
      fst (teval m tc0 s (w_rename f w)) = fst (teval m tc0 s w)) /\
   (forall used c m s w, tCInv used c -> (forall i, In i (w_rec_ids w) -> ~ In i used) -> tguard s ->
+     NoDup (w_ids w) ->
      fst (teval m c s w) = fst (teval m tc0 s w) /\ tCInv (w_rec_ids w ++ used) (snd (teval m c s w))) /\
   Pipeline.Inv tcache tCInv h_fresh /\ Pipeline.Inv tcache tCInv h_warm /\ Pipeline.Inv tcache tCInv h_off /\
   tguard OnRecord.
 Proof.
-  split; [exact t_CInv_mono|]. split; [exact t_cache_transparent|].
-  split; [exact t_id_renaming|]. split; [exact t_caches_sound|].
+  split; [exact t_CInv_mono|]. split; [intros; apply t_cache_transparent|].
+  split; [intros; apply t_id_renaming; assumption|]. split; [intros; apply t_caches_sound; assumption|].
   split; [exact Inv_h_fresh|]. split; [exact Inv_h_warm|]. split; [exact Inv_h_off|reflexivity].
 Qed.
 
@@ -161,3 +219,52 @@ Example c15_instance_history :
                h_warm OnRecord t_ctx t_units) OnRecord t_ctx t_units
   = t_run h_fresh OnRecord t_ctx t_units.
 Proof. vm_compute. reflexivity. Qed.
+
+(* ---- with JavaScript (Proofs/PipelineJs.v; see Props/C13.v caches_invisible_js for the model) --- *)
+From OV Require Model.Js Proofs.Js Proofs.PipelineJs.
+Module MJ := OV.Model.Js.
+Module PJ := OV.Proofs.Js.
+Module PJS := OV.Proofs.PipelineJs.
+
+Section C15_JS.
+  Variable r : MJ.rt.
+  Variable compile : N -> option MJ.script.
+  Hypothesis r_wf : PJ.rt_wf r.
+  Variable query : tree -> bytes -> path -> option (list path).
+  Variable ext : bytes -> option bytes.
+  Variable fsigs : bytes -> option fsig.
+  Variable fcall0 : tree -> bytes -> path -> list value -> cfres.
+  Variable pcall : tree -> bytes -> path -> cfres.
+  Hypothesis query_valid : forall root x p ps,
+    valid root p -> query root x p = Some ps -> Forall (valid root) ps.
+  Variable js_of : tree -> bytes -> path -> list value -> option (MJ.call * MJ.sched).
+  Variable matches : MJ.call * MJ.sched -> MJ.call * MJ.sched -> bool.
+  Hypothesis matches_spec : forall a b, matches a b = true ->
+    PJ.call_spec r compile (fst a) (snd a) = PJ.call_spec r compile (fst b) (snd b).
+  Variable cf_of : MJ.outcome * option bytes -> cfres.
+  Variable jscalls : bool -> vdecl -> world -> list (MJ.call * MJ.sched).
+  Variable js_guard : vdecl -> Prop.
+  Hypothesis jscalls_wf : forall m s w, js_guard s -> NoDup (w_ids w) ->
+    forall c sc, In (c, sc) (jscalls m s w) ->
+      PJ.call_wf c sc /\ (forall id j, MJ.c_node c = Some (id, j) -> In id (w_rec_ids w)).
+  Hypothesis jscalls_stable : forall m s w, js_guard s -> NoDup (w_ids w) ->
+    PJ.content_stable_per_id (map fst (jscalls m s w)).
+  Variable progcap nodecap : N.
+  Variable marshal : value -> option bytes.
+  Variable marshal_err_cont : bool.
+  Variable H : bytes -> bytes.
+  Variable canon : tree -> bytes.
+  Notation eval_js := (PJS.eval_js r compile query ext fsigs fcall0 pcall js_of matches cf_of jscalls).
+  Notation run_env_js := (run_env vdecl value MJ.jsstate eval_js marshal marshal_err_cont H canon).
+  Notation InvJ := (PJS.InvJ r compile).
+
+  Theorem run_deterministic_js : forall h h' hist s ctx us,
+    InvJ h -> InvJ h' -> Forall (fun x => js_guard (fst (fst x))) hist -> js_guard s ->
+    run_env_js (after_history vdecl value MJ.jsstate eval_js marshal marshal_err_cont H canon h hist) s ctx us
+    = run_env_js h' s ctx us.
+  Proof.
+    exact (PJS.run_deterministic_js r compile r_wf query ext fsigs fcall0 pcall query_valid js_of matches
+             matches_spec cf_of jscalls js_guard jscalls_wf jscalls_stable progcap nodecap
+             marshal marshal_err_cont H canon).
+  Qed.
+End C15_JS.
